@@ -67,8 +67,9 @@ type Follower struct {
 	regs0       ref.Regs
 	pred        ref.Result
 	if0, ie0    uint8
-	raisedEarly uint8 // raised (hardware or injected) before the last cycle's CPU phase
-	raisedLast  uint8 // raised in the hardware phase of the most recent cycle
+	raisedEarly uint8     // raised (hardware or injected) before the last cycle's CPU phase
+	raisedLast  uint8     // raised in the hardware phase of the most recent cycle
+	raisedAt    [16]uint8 // raisedAt[k]: requests raised after k cycles of the unit had completed
 	enableAfter bool
 	wasHalted   bool
 	partial     bool
@@ -139,6 +140,9 @@ func (f *Follower) Inject(bits uint8) {
 	f.raisedEarly |= f.raisedLast
 	f.raisedLast = 0
 	f.raisedEarly |= bits & 0x1f
+	if f.cyc < len(f.raisedAt) {
+		f.raisedAt[f.cyc] |= bits & 0x1f
+	}
 }
 
 func lowestBit(v uint8) uint8 { return v & -v }
@@ -167,6 +171,7 @@ func (f *Follower) begin() bool {
 	f.if0 = m.IRQ.ReadIF() & 0x1f
 	f.ie0 = m.IRQ.ReadIE()
 	f.raisedEarly, f.raisedLast = 0, 0
+	f.raisedAt = [16]uint8{}
 	f.cyc = 0
 	f.partial = false
 	f.skipCompare = false
@@ -267,6 +272,9 @@ func (f *Follower) Cycle() bool {
 	}
 	f.raisedLast = (m.IRQ.ReadIF() & 0x1f) &^ ifMid
 	f.cyc++
+	if f.cyc < len(f.raisedAt) {
+		f.raisedAt[f.cyc] |= f.raisedLast
+	}
 	if f.kind == UnitWake && f.cyc == 1 {
 		// the wake-up may cost one empty cycle or none (the statement gives no count)
 		if m.CPU.XAtBoundary() && Regs(m) == f.regs0 {
@@ -342,10 +350,19 @@ func (f *Follower) end() {
 			}
 		}
 		wantIF := ((f.if0 | f.raisedEarly) &^ bit) | f.raisedLast
-		if gotIF := m.IRQ.ReadIF() & 0x1f; gotIF != wantIF {
+		// a return address pushed onto IF or IE themselves is hardware-specific (not in the statement)
+		stackHitsIRQRegs := false
+		for _, a := range []uint16{wantRegs.SP, wantRegs.SP + 1} {
+			if a == 0xff0f || a == 0xffff {
+				stackHitsIRQRegs = true
+			}
+		}
+		if stackHitsIRQRegs {
+			f.Resyncs++
+		} else if gotIF := m.IRQ.ReadIF() & 0x1f; gotIF != wantIF {
 			f.violate("C04", fmt.Sprintf("dispatch-if-clear-bit%02X", bit), fmt.Sprintf("IF before %02X (raised meanwhile %02X/%02X), dispatched bit %02X: IF after %02X, want %02X", f.if0, f.raisedEarly, f.raisedLast, bit, gotIF, wantIF))
 		}
-		if m.IRQ.ReadIE() != f.ie0 {
+		if !stackHitsIRQRegs && m.IRQ.ReadIE() != f.ie0 {
 			f.violate("C04", "dispatch-changed-ie", fmt.Sprintf("IE %02X -> %02X", f.ie0, m.IRQ.ReadIE()))
 		}
 		f.IME = false
@@ -376,6 +393,15 @@ func (f *Follower) endInstr(got ref.Regs) {
 	name := fmt.Sprintf("op%02X", p.Op)
 	if p.CB {
 		name = fmt.Sprintf("opCB%02X", p.Op)
+	}
+	// the real CPU dispatched an interrupt where the reference executes an instruction
+	if !f.skipCompare && got != p.Regs && got.SP == f.regs0.SP-2 && got.PC >= 0x40 && got.PC <= 0x60 && got.PC&7 == 0 && p.Regs.PC != got.PC && f.cyc >= 5 {
+		f.violate("C04", "dispatch-when-not-allowed", fmt.Sprintf("an interrupt was dispatched to %04X at PC=%04X where the reference executes %s (IME=%v, EI in effect only after this instruction=%v, IE=%02X IF=%02X)", got.PC, f.regs0.PC, name, f.IME, f.enableAfter, f.ie0, f.if0))
+		f.IME = m.IRQ.Enabled()
+		f.EIPending = false
+		f.enableAfter = false
+		f.Resyncs++
+		return
 	}
 	if f.skipCompare {
 		f.Resyncs++
@@ -424,6 +450,31 @@ func (f *Follower) endInstr(got ref.Regs) {
 				if w != *m.Mem.XWRAM() || h != *m.Mem.XHRAM() {
 					f.violate("C01", name+"-frame-condition", fmt.Sprintf("%s at PC=%04X changed work/high RAM outside its documented write set", name, f.regs0.PC))
 				}
+			}
+		}
+	}
+	if !f.skipCompare {
+		// IF and IE change only through the instruction's own writes and new requests
+		wantIF, wantIE := f.if0|f.raisedAt[0], f.ie0
+		for k := 1; k <= f.cyc && k < len(f.raisedAt); k++ {
+			for _, a := range p.Acc {
+				if a.Write && a.Cycle == k {
+					if a.Addr == 0xff0f {
+						wantIF = a.Val & 0x1f
+					}
+					if a.Addr == 0xffff {
+						wantIE = a.Val
+					}
+				}
+			}
+			wantIF |= f.raisedAt[k]
+		}
+		if f.cyc == p.Cycles {
+			if gotIF := m.IRQ.ReadIF() & 0x1f; gotIF != wantIF {
+				f.violate("C04", "if-changed-without-dispatch", fmt.Sprintf("%s at PC=%04X: IF %02X -> %02X, expected %02X (no dispatch happened)", name, f.regs0.PC, f.if0, gotIF, wantIF))
+			}
+			if gotIE := m.IRQ.ReadIE(); gotIE != wantIE {
+				f.violate("C04", "ie-changed", fmt.Sprintf("%s at PC=%04X: IE %02X -> %02X, expected %02X", name, f.regs0.PC, f.ie0, gotIE, wantIE))
 			}
 		}
 	}
